@@ -295,6 +295,28 @@ class C02(FamilyCfg):
                             s += "--- db\n" + setup + f"list.DeleteFront {K1} {e} {a}\nlist.Range {K1} 0 -1\n"
                             s += "--- db\n" + setup + f"list.DeleteBack {K1} {e} {a}\nlist.Range {K1} 0 -1\n"
             out.append(dict(kind="script", script=s))
+        # histories: every sequence of three structure-changing operations (pushes at both ends, inserts next to
+        # each element, removal of each element, pops, a rotate) on [a b c d], then every index and the full
+        # range: positions with gaps AND midpoints, negative positions, emptied and refilled lists
+        import itertools
+        ED, EX, EY = hx("d"), hx("x"), hx("y")
+        muts = [f"list.PushBack {K1} {EX}", f"list.PushFront {K1} {EY}", f"list.InsertAfter {K1} {EA} {EX}",
+                f"list.InsertBefore {K1} {EC} {EY}", f"list.InsertAfter {K1} {ED} {EY}", f"list.InsertBefore {K1} {EA} {EX}",
+                f"list.DeleteFront {K1} {EB} 1", f"list.Delete {K1} {EC}", f"list.DeleteBack {K1} {ED} 1", f"list.Delete {K1} {EX}",
+                f"list.PopFront {K1}", f"list.PopBack {K1}", f"list.PopBackPushFront {K1} {K1}"]
+        seqs = list(itertools.product(muts, repeat=3))
+        nchunks = 4
+        for c in range(nchunks):
+            s = ""
+            for j, sq in enumerate(seqs):
+                if j % nchunks != c:
+                    continue
+                if tier != "thorough" and (j // nchunks) % 3:
+                    continue            # a third of the 2197 histories in the quick tier, all of them in the thorough one
+                s += f"--- db\n!list.PushBack {K1} {EA}\n!list.PushBack {K1} {EB}\n!list.PushBack {K1} {EC}\n!list.PushBack {K1} {ED}\n"
+                s += "".join("!" + m + "\n" for m in sq)
+                s += "".join(f"list.Get {K1} {i}\n" for i in range(-7, 7)) + f"list.Len {K1}\nlist.Range {K1} 0 -1\n"
+            out.append(dict(kind="script", script=s))
         # repeated insertion at one position, before and after; src == dst move
         s = f"--- db\n!list.PushBack {K1} {EA}\n!list.PushBack {K1} {EB}\n"
         for i in range(70):
@@ -842,6 +864,8 @@ class C20(CrossCfg):
             out.append(dict(kind="script", script=sc))
         # a backlog beyond SQLite's bound-parameter limit (32766) and every batch constant of the code
         out.append(dict(kind="tick", args=["-backlog", 120000 if tier == "thorough" else 40000]))
+        # the reclamation goroutine exists exactly while a read-write handle is open (open / close orders, shared Options)
+        out.append(dict(kind="tick", args=["-lifecycle"]))
         if tier == "thorough":
             out.append(dict(kind="tick", args=["-seed", seed, "-keys", 2000]))
         return out
